@@ -827,7 +827,7 @@ class ResultHandler(PoolThread):
                 return
 
             if self.on_ready_counters:
-                worker_pid = next(iter(item.worker_pids()), None)
+                worker_pid = item._part_worker_pid(i)
                 if worker_pid and worker_pid in self.on_ready_counters:
                     on_ready_counter = self.on_ready_counters[worker_pid]
                     with on_ready_counter.get_lock():
@@ -1786,6 +1786,10 @@ class ApplyResult:
     def worker_pids(self):
         return [self._worker_pid] if self._worker_pid else []
 
+    def _part_worker_pid(self, i):
+        # pid of the worker that accepted part `i` of this job.
+        return self._worker_pid
+
     def wait(self, timeout=None):
         self._event.wait(timeout)
 
@@ -1927,6 +1931,12 @@ class MapResult(ApplyResult):
     def worker_pids(self):
         return [pid for pid in self._worker_pid if pid]
 
+    def _part_worker_pid(self, i):
+        try:
+            return self._worker_pid[i * self._chunksize]
+        except (IndexError, TypeError):
+            return None
+
 #
 # Class whose instances are returned by `Pool.imap()`
 #
@@ -1947,6 +1957,7 @@ class IMapIterator:
         self._ready = False
         self._unsorted = {}
         self._worker_pids = []
+        self._part_pids = {}
         self._lost_worker_timeout = lost_worker_timeout
         cache[self._job] = self
 
@@ -2004,12 +2015,16 @@ class IMapIterator:
 
     def _ack(self, i, time_accepted, pid, *args):
         self._worker_pids.append(pid)
+        self._part_pids[i] = pid
 
     def ready(self):
         return self._ready
 
     def worker_pids(self):
         return self._worker_pids
+
+    def _part_worker_pid(self, i):
+        return self._part_pids.get(i)
 
 #
 # Class whose instances are returned by `Pool.imap_unordered()`
